@@ -22,6 +22,10 @@ pub struct SimState {
     pub clock_ticks: Vec<i128>,
     pub clock_reads: Vec<(&'static str, i128)>,
     pub real_clock_reads: u64,
+    /// per seam site: the last real reading the library handed to the seam, and the harness's own wall
+    /// clock at that moment (staleness detector, see `now`)
+    pub real_seen: BTreeMap<&'static str, (i128, i128)>,
+    pub stale_reads: Vec<&'static str>,
     // ---- entropy
     pub entropy_mode: EntropyMode,
     pub entropy_seed: u64,
@@ -77,6 +81,8 @@ impl SimState {
             clock_ticks: vec![],
             clock_reads: vec![],
             real_clock_reads: 0,
+            real_seen: BTreeMap::new(),
+            stale_reads: vec![],
             entropy_mode: EntropyMode::Simulate,
             entropy_seed: 0,
             entropy_fail: BTreeSet::new(),
@@ -103,8 +109,19 @@ pub fn with<R>(f: impl FnOnce(&mut SimState) -> R) -> R {
 struct Forwarder;
 
 impl SimEnv for Forwarder {
-    fn now(&mut self, _real_unix_ns: i128, site: &'static str) -> i128 {
+    fn now(&mut self, real_unix_ns: i128, site: &'static str) -> i128 {
         with(|s| {
+            // The seam sits at the place where the reading is USED.  A library that takes the reading
+            // somewhere else (once, at construction, say) and keeps the seam line where it was would be
+            // served the simulated time as if nothing had happened.  It gives itself away: it hands the seam
+            // the very same real reading again although the wall clock has visibly moved on.
+            let own = std::time::SystemTime::now().duration_since(std::time::UNIX_EPOCH).map_or(0, |d| d.as_nanos() as i128);
+            if let Some((prev_real, prev_own)) = s.real_seen.get(site) {
+                if *prev_real == real_unix_ns && own > *prev_own + 20_000 {
+                    s.stale_reads.push(site);
+                }
+            }
+            s.real_seen.insert(site, (real_unix_ns, own));
             let k = s.clock_reads.len();
             let mut t = s.clock_base;
             for d in s.clock_ticks.iter().take(k) {
@@ -166,6 +183,11 @@ pub fn set_clock(base: i128, ticks: &[i128]) {
 
 pub fn take_clock_reads() -> Vec<(&'static str, i128)> {
     with(|s| std::mem::take(&mut s.clock_reads))
+}
+
+/// seam sites that were handed a stale real reading since the last call
+pub fn take_stale_reads() -> Vec<&'static str> {
+    with(|s| std::mem::take(&mut s.stale_reads))
 }
 
 pub fn set_entropy(mode: EntropyMode, seed: u64, fail: &[usize]) {
